@@ -27,9 +27,11 @@ CONSTANTS
   RichOnly = FALSE
   NeedStruct = FALSE
   MaxRich <- Unlimited
+  NBrkPlaces = 7
+  SplitUnits = FALSE
   NCmtCls = 9
   NCppForms = 30
-  NGarb = 8
+  NGarb = 10
   DirectiveCls <- DirCls
 INVARIANT WellNested
 INVARIANT GrammarInNest
